@@ -1,4 +1,6 @@
 #!/bin/bash
+# evidence of runs on a changed tree must not overwrite the committed evidence of the unchanged tree
+export VERIF_EVIDENCE_DIR=/verif/.cache/mutant_evidence
 # usage: mutant.sh verify <id>      -- re-verify a sub-agent's mutant in its scratch worktree /tmp/mut/<id>
 #        mutant.sh run <id> <prop>  -- apply /verif/seeded/<id>/patch.diff to /repo, run the quick check of <prop>, undo
 set -u
